@@ -99,9 +99,23 @@ func init() {
 			Name: "bls12381.G1.SetBytes" + sfx, Canon: true, Prefix: true, Membership: true, Cost: 6, Seeds: 10,
 			Valid: func(seed uint64) []byte {
 				var p bls12381.G1
-				if seed%8 == 5 {
+				switch seed % 8 {
+				case 5:
 					p.SetIdentity()
-				} else {
+				case 4: // identity reached by arithmetic: P + (-P)
+					var q bls12381.G1
+					p.ScalarMult(blsScalar(seed), bls12381.G1Generator())
+					q = p
+					q.Neg()
+					p.Add(&p, &q)
+				case 3: // negated identity
+					p.SetIdentity()
+					p.Neg()
+				case 2: // doubling of a point, negated
+					p.ScalarMult(blsScalar(seed), bls12381.G1Generator())
+					p.Double()
+					p.Neg()
+				default:
 					p.ScalarMult(blsScalar(seed), bls12381.G1Generator())
 				}
 				if comp {
@@ -126,9 +140,23 @@ func init() {
 			Name: "bls12381.G2.SetBytes" + sfx, Canon: true, Prefix: true, Membership: true, Cost: 15, Seeds: 10,
 			Valid: func(seed uint64) []byte {
 				var p bls12381.G2
-				if seed%8 == 5 {
+				switch seed % 8 {
+				case 5:
 					p.SetIdentity()
-				} else {
+				case 4: // identity reached by arithmetic: P + (-P)
+					var q bls12381.G2
+					p.ScalarMult(blsScalar(seed), bls12381.G2Generator())
+					q = p
+					q.Neg()
+					p.Add(&p, &q)
+				case 3: // negated identity
+					p.SetIdentity()
+					p.Neg()
+				case 2: // doubling of a point, negated
+					p.ScalarMult(blsScalar(seed), bls12381.G2Generator())
+					p.Double()
+					p.Neg()
+				default:
 					p.ScalarMult(blsScalar(seed), bls12381.G2Generator())
 				}
 				if comp {
@@ -236,8 +264,19 @@ func init() {
 		var k goldilocks.Scalar
 		k.FromBytes(seedBytes(seed, 56))
 		P := c.ScalarBaseMult(&k)
-		if seed%8 == 5 {
+		switch seed % 8 {
+		case 5:
 			P = c.Identity()
+		case 4: // identity reached by arithmetic
+			Q := *P
+			Q.Neg()
+			P.Add(&Q)
+		case 3:
+			P = c.Identity()
+			P.Neg()
+		case 2:
+			P.Double()
+			P.Neg()
 		}
 		b, _ := P.MarshalBinary()
 		return b
@@ -285,8 +324,18 @@ func init() {
 		var k, out [32]byte
 		copy(k[:], seedBytes(seed, 32))
 		P.ScalarBaseMult(&k)
-		if seed%8 == 5 {
+		switch seed % 8 {
+		case 5:
 			P.SetIdentity()
+		case 4: // identity reached by arithmetic: N*P (ScalarMult clears the cofactor first)
+			var n [32]byte
+			nb := fourq.Params().N.Bytes()
+			for i := range nb {
+				n[i] = nb[len(nb)-1-i]
+			}
+			P.ScalarMult(&n, &P)
+		case 2:
+			P.Add(&P, &P)
 		}
 		P.Marshal(&out)
 		return out[:]
@@ -313,7 +362,13 @@ func init() {
 			P.Marshal(&out)
 			return Result{Accepted: true, Reenc: out[:], Member: P.IsOnCurve()}
 		}})
-	Register(&Entry{Name: "curve4q.Shared(public)", Membership: true, FixedLen: 32, Cost: 8, Seeds: 5, Valid: fourqValid, Aware: fourqAware,
+	Register(&Entry{Name: "curve4q.Shared(public)", Membership: true, FixedLen: 32, Cost: 8, Seeds: 8, Aware: fourqAware,
+		Valid: func(seed uint64) []byte { // the identity is (rightly) refused as a DH public key
+			if seed%8 == 4 || seed%8 == 5 {
+				seed += 2
+			}
+			return fourqValid(seed)
+		},
 		Call: func(in []byte) Result {
 			var pub, sec, sh curve4q.Key
 			copy(pub[:], in)
@@ -350,10 +405,20 @@ func init() {
 			curve = elliptic.P521()
 		}
 		elt := func(seed uint64) group.Element {
-			if seed%8 == 5 {
+			e := g.HashToElement(seedBytes(seed, 16), []byte("circlsim"))
+			switch seed % 8 {
+			case 5:
 				return g.Identity()
+			case 4: // identity reached by arithmetic
+				return g.NewElement().Add(e, g.NewElement().Neg(e))
+			case 3:
+				return g.NewElement().Neg(g.Identity())
+			case 2:
+				return g.NewElement().Neg(g.NewElement().Dbl(e))
+			case 1:
+				return g.NewElement().MulGen(g.HashToScalar(seedBytes(seed, 16), []byte("k")))
 			}
-			return g.HashToElement(seedBytes(seed, 16), []byte("circlsim"))
+			return e
 		}
 		cost := 8
 		if g == group.P521 {
